@@ -12,6 +12,7 @@ import PasfmtModel.Model.WrapStage
 import PasfmtModel.Model.WrapStageFull
 import PasfmtModel.Model.PipelineFull
 import PasfmtModel.Model.LayoutCheck
+import PasfmtModel.Proofs.CrlfFull
 
 namespace Pasfmt
 
@@ -254,7 +255,10 @@ def handleFull (cfgS inpS alnumS : String) : String :=
   | some cfg, some inp, some alnum =>
     match formatFull cfg (fun b => alnum.contains b) inp with
     | none => "model-none"
-    | some out => s!"out={toHex out}"
+    | some out =>
+      -- the premises of `C09.C09_format_full_crlf_config` on this input (tally only)
+      let c09 := if CrlfFull.crlfOk cfg (fun b => alnum.contains b) inp then "hold" else "no"
+      s!"out={toHex out}\tinfo_c09={c09}"
   | _, _, _ => "bad-record"
 
 /-- the `full2` stream: two layouts of the same tokens through the closed model, plus the premises of the layout
